@@ -54,7 +54,11 @@
      I5  Modelled(x): a numpy-integer scalar shares a collection only with its own kind, None, strings, sequences and
          dictionaries (astype(<width>) of foreign out-of-range numbers is numpy's business, not armi's).
 
-   Values are abstract ids ("a","b","lo2","hi2","nan", inner "none"); the harness owns the table id -> concrete value.
+   Values are abstract ids; the harness owns the table id -> concrete value.  The model gives a meaning to four of them only:
+   "nan" (the real marker), "lo2" = min+2 (signed marker), "hi2" = max-2 (unsigned marker), "none" (an inner None).  All
+   other ids are ordinary values that must come back unchanged: "a","b", and the markers' neighbours "pinf" "ninf" (+-inf),
+   "nz" (-0.0), "fmax" (largest finite real), "z" (0), "m1" (-1; unsigned: all ones), "lo1" "lo3" (min+1, min+3), "hi1" "hi3"
+   (max-1, max-3).  Only NaN is unset for reals; only the one marker value of the dtype is unset for integers.
 *)
 EXTENDS Integers, Sequences, FiniteSets, TLC, Json, SequencesExt, FiniteSetsExt
 
